@@ -9,8 +9,8 @@ echo "--- suite with the change (isolated netns)"
 unshare -n sh -c "ip link set lo up && cargo test --workspace --no-fail-fast --offline 2>&1" > "$WT/confirm_suite.log"
 grep -E "^test result|FAILED|failed" "$WT/confirm_suite.log" | grep -v "^test result: ok. 0 passed" | head -30
 echo "--- demo with the change (must fail)"
-cargo test -p "$PKG" --offline --test "$DEMO" 2>&1 | grep -E "^test |test result" | head
+unshare -n sh -c "ip link set lo up && cargo test -p $PKG --offline --test $DEMO 2>&1" | grep -E "^test |test result" | head
 echo "--- demo without the change (must pass)"
 git apply -R MUTANT.diff
-cargo test -p "$PKG" --offline --test "$DEMO" 2>&1 | grep -E "^test |test result" | head
+unshare -n sh -c "ip link set lo up && cargo test -p $PKG --offline --test $DEMO 2>&1" | grep -E "^test |test result" | head
 git apply MUTANT.diff
